@@ -113,6 +113,7 @@ void wrap_reset_case(void)
 {
   W->ntr = 0;
   W->overflow = 0;
+  W->runaway = 0;
   W->nfault = 0;
   W->faults_disabled = 0;
   W->nchild = 0;
@@ -211,8 +212,19 @@ static int next_k(int fn)
 static __thread int tidx;
 static int tidx_next;
 
+// A forked child makes a bounded number of library-level calls before it execs or exits
+// (the descriptor-closing loop dominates: the limit here is 20000 descriptors at most).
+// Far beyond that is a loop that will not end in any useful time: a step-count verdict,
+// not a wall-clock one.
+#define W_CHILD_BUDGET 400000u
+static uint32_t w_child_calls;
+
 static trec *rec(int fn, int k, long a0, long a1, long a2)
 {
+  if (w_side == 1 && ++w_child_calls > W_CHILD_BUDGET) {
+    __atomic_store_n(&W->runaway, (uint32_t) fn + 1, __ATOMIC_RELAXED);
+    _exit(98);
+  }
   if (!tidx) tidx = __atomic_fetch_add(&tidx_next, 1, __ATOMIC_RELAXED) + 1;
   uint32_t i = __atomic_fetch_add(&W->ntr, 1, __ATOMIC_RELAXED);
   if (i >= W_MAXTR) {
@@ -394,8 +406,14 @@ pid_t __wrap_waitpid(pid_t pid, int *status, int options)
   return r;
 }
 
+#ifdef VERIF_COV
+void __gcov_dump(void);
+#endif
 int __wrap_execvp(const char *file, char *const argv[])
 {
+#ifdef VERIF_COV
+  __gcov_dump();
+#endif
   int k = next_k(F_execvp);
   trec *t = rec(F_execvp, k, 0, 0, 0);
   if (file) {
@@ -414,11 +432,21 @@ int __wrap_execvp(const char *file, char *const argv[])
   return r;
 }
 
+#ifdef VERIF_COV
+// gcc --coverage rewrites fork/execvp in the instrumented objects to these
+pid_t __wrap_fork(void);
+pid_t __wrap___gcov_fork(void) { return __wrap_fork(); }
+int __wrap___gcov_execvp(const char *file, char *const argv[]) { return __wrap_execvp(file, argv); }
+#endif
+
 void __wrap__exit(int code)
 {
   int k = next_k(F__exit);
   trec *t = rec(F__exit, k, code, 0, 0);
   (void) t;
+#ifdef VERIF_COV
+  __gcov_dump();
+#endif
   _exit(code);
 }
 
@@ -872,6 +900,14 @@ int __wrap_getrlimit(int res, struct rlimit *rl)
   int k = next_k(F_getrlimit);
   trec *t = rec(F_getrlimit, k, res, 0, 0);
   int e = fault_for(F_getrlimit, k, t);
+  if (e >= 30000) {
+    // value fault: the call succeeds and reports a limit this machine cannot really be given
+    // (fs.nr_open caps the real one): 30001 unlimited, 30002 just above what the library accepts
+    int r = getrlimit(res, rl);
+    if (r == 0) rl->rlim_cur = e == 30001 ? RLIM_INFINITY : (rlim_t) 1024 * 1024 + 2;
+    fin(t, r);
+    return r;
+  }
   if (e) {
     t->ret = -1;
     errno = e;
